@@ -1,7 +1,7 @@
 (* Proofs/AssignProofs.v — C02: on the evaluator model, assigning a scalar at
    a key path IS the lens [put] of Spec/Lens.v, so the update laws proved for
    [put] hold for the evaluator. *)
-From Coq Require Import Arith.
+From Coq Require Import Arith ZArith Lia.
 From YQ Require Import Base.Str Model.Node Model.Store Model.Eval Spec.Lens Proofs.LensProofs.
 
 (* `.k1 | .k2 | ... | .kn`, nested to the right *)
@@ -450,4 +450,43 @@ Proof.
   rewrite (eval_pk_rw ks f [] O [] (init_store doc) doc n1 pos Hne Hfuel Hw Hd0 Hv). cbn [bind fst snd app rev Eval.iter].
   match goal with |- context [eval f r false ?a ?b ?c] => replace (eval f r false a b c) with (@Ok out ([], st2)) by (symmetry; exact Hr) end.
   reflexivity.
+Qed.
+
+(* ---------- one writable index step is the lens step ---------- *)
+Lemma pad_nulls_is_pad_to items n : pad_nulls items n = pad_to items n.
+Proof. revert items. induction n as [|n IH]; intros items; cbn [pad_nulls pad_to]; [reflexivity | apply IH]. Qed.
+
+(* `[i]` applied in a writable context to a sequence (or to a null, which is re-typed to an empty sequence first)
+   pads it with nulls exactly as [put (SIdx i :: _)] does and answers the position i. *)
+Theorem index_step_is_lens_step p st n items t i :
+  deref st p = Some n ->
+  (n = Seq items \/ (exists tv, n = Scalar TNull tv) /\ items = []) ->
+  Z_of_index t = Ok (Z.of_nat i) -> (Z.of_nat i <= 100000)%Z ->
+  exists st', trav_indices false [Scalar TInt t] p st = Ok ([(fst p, snd p ++ [i])], st')
+              /\ deref st' p = Some (Seq (pad_to items (S i - length items))).
+Proof.
+  intros Hd Hn Hz Hi. unfold trav_indices, deref_r. rewrite Hd. cbn [of_option bind].
+  assert (Hcore : forall st0, deref st0 p = Some (Seq items) ->
+            exists st', each (fun ix st1 =>
+                     let* n1 := deref_r st1 p in
+                     match n1, ix with
+                     | Seq items1, Scalar _ v => let* z := Z_of_index v in trav_index false p items1 z st1
+                     | _, _ => Unsup
+                     end) [Scalar TInt t] st0 = Ok ([(fst p, snd p ++ [i])], st')
+                /\ deref st' p = Some (Seq (pad_to items (S i - length items)))).
+  { intros st0 Hd0. cbn [each]. unfold deref_r. rewrite Hd0. cbn [of_option bind]. rewrite Hz. cbn [bind].
+    unfold trav_index. destruct (Z.of_nat (length items) <=? Z.of_nat i)%Z eqn:Ele.
+    - apply Z.leb_le in Ele.
+      assert (Hgt : (Z.of_nat i >? 100000)%Z = false) by (rewrite Z.gtb_ltb; apply Z.ltb_ge; lia).
+      rewrite Hgt. cbn [bind fst snd app]. rewrite Nat2Z.id.
+      replace (Z.to_nat (Z.of_nat i + 1 - Z.of_nat (length items))) with (S i - length items)%nat by lia.
+      eexists. split; [reflexivity|]. rewrite (deref_update_same _ _ _ _ Hd0), pad_nulls_is_pad_to. reflexivity.
+    - apply Z.leb_gt in Ele.
+      assert (Hneg : (Z.of_nat i <? 0)%Z = false) by (apply Z.ltb_ge; lia).
+      rewrite Hneg, Hneg. cbn [bind fst snd app]. rewrite Nat2Z.id.
+      eexists. split; [reflexivity|]. rewrite Hd0.
+      replace (S i - length items)%nat with O by lia. reflexivity. }
+  destruct Hn as [->|[[tv ->] ->]].
+  - exact (Hcore st Hd).
+  - apply Hcore. rewrite (deref_update_same _ _ _ _ Hd). reflexivity.
 Qed.
